@@ -18,6 +18,67 @@ theorem giTerms_cons {α : Type} [NumOps α] (term : CNest α → Int → α →
   unfold giTerms
   rw [List.flatMap_cons]
 
+theorem mem_giTerms {α : Type} [NumOps α] (term : CNest α → Int → α → α) (i : Int) (x : α)
+    (nests : List (CNest α)) :
+    x ∈ giTerms term nests i ↔ ∃ m ∈ nests, ∃ p ∈ m.alphas, p.1 = i ∧ term m i p.2 = x := by
+  unfold giTerms
+  simp only [List.mem_flatMap, List.mem_map, List.mem_filter, beq_iff_eq]
+  constructor
+  · rintro ⟨m, hm, p, ⟨hp, hpi⟩, rfl⟩
+    exact ⟨m, hm, p, hp, hpi, rfl⟩
+  · rintro ⟨m, hm, p, hp, hpi, rfl⟩
+    exact ⟨m, hm, p, ⟨hp, hpi⟩, rfl⟩
+
+/-! ## zero membership (`get_mev_for_cross_nested_mu`) -/
+
+theorem zeroMember_iff (nests : List (CNest ℝ)) (i : Int) :
+    zeroMember nests i = true ↔ ∀ m ∈ nests, ∀ p ∈ m.alphas, p.1 = i → p.2 = 0 := by
+  unfold zeroMember
+  rw [List.all_eq_true]
+  constructor
+  · intro h m hm p hp hpi
+    have := h p.2 ((mem_giTerms _ i p.2 nests).2 ⟨m, hm, p, hp, hpi, rfl⟩)
+    simpa using this
+  · intro h x hx
+    obtain ⟨m, hm, p, hp, hpi, rfl⟩ := (mem_giTerms _ i x nests).1 hx
+    simpa using h m hm p hp hpi
+
+theorem zeroMember_false_of_pos (nests : List (CNest ℝ)) (i : Int)
+    (h : ∃ m ∈ nests, ∃ p ∈ m.alphas, p.1 = i ∧ 0 < p.2) : zeroMember nests i = false := by
+  obtain ⟨m, hm, p, hp, hpi, hpos⟩ := h
+  rw [Bool.eq_false_iff]
+  intro hz
+  have := (zeroMember_iff nests i).1 hz m hm p hp hpi
+  linarith
+
+/-- not every membership is zero and none is negative: one is positive -/
+theorem pos_of_zeroMember_false (nests : List (CNest ℝ)) (i : Int)
+    (hnn : ∀ m ∈ nests, ∀ p ∈ m.alphas, 0 ≤ p.2) (h : zeroMember nests i = false) :
+    ∃ m ∈ nests, ∃ p ∈ m.alphas, p.1 = i ∧ 0 < p.2 := by
+  by_contra hne
+  have : zeroMember nests i = true := by
+    rw [zeroMember_iff]
+    intro m hm p hp hpi
+    by_contra h0
+    exact hne ⟨m, hm, p, hp, hpi, lt_of_le_of_ne (hnn m hm p hp) (Ne.symm h0)⟩
+  rw [h] at this
+  cases this
+
+theorem cnlMuLogG_listed (nests : List (CNest ℝ)) (mu : ℝ) (V av : Int → ℝ) (i : Int)
+    (h : inSomeCNest nests i = true) (hz : zeroMember nests i = false) :
+    cnlMuLogG nests mu V av i = Real.log (mu * (giTerms (cnlMuTerm mu V av) nests i).sum) := by
+  unfold cnlMuLogG
+  rw [h, hz, NumR.sum_real]
+  simp
+
+theorem cnlMuLogG_alone (nests : List (CNest ℝ)) (mu : ℝ) (V av : Int → ℝ) (i : Int)
+    (h : inSomeCNest nests i = false ∨ zeroMember nests i = true) :
+    cnlMuLogG nests mu V av i = Real.log mu + (mu - 1) * V i := by
+  unfold cnlMuLogG
+  rcases h with h | h
+  · rw [h]; simp
+  · rw [h]; simp
+
 theorem sum_giTerms_scale (term term' : CNest ℝ → Int → ℝ → ℝ) (c : ℝ) (i : Int) :
     ∀ (nests : List (CNest ℝ)), (∀ m ∈ nests, ∀ a, term' m i a = c * term m i a) →
       (giTerms term' nests i).sum = c * (giTerms term nests i).sum
@@ -229,21 +290,20 @@ theorem avail_pos (av : Int → ℝ) (i : Int) (hnn : ∀ j, 0 ≤ av j) (h : av
 theorem cnlMuLogG_shift (nests : List (CNest ℝ)) (mu : ℝ) (V av : Int → ℝ) (k : ℝ) (i : Int)
     (ok : CnlOK nests av) (hmu : mu ≠ 0) (hav : avail av i = true) (hr : Reachable nests i) :
     cnlMuLogG nests mu (fun j => V j + k) av i = cnlMuLogG nests mu V av i + (mu - 1) * k := by
-  unfold cnlMuLogG
   by_cases h : inSomeCNest nests i = true
-  · rw [if_pos h, if_pos h, NumR.sum_real, NumR.sum_real]
+  · have hz := zeroMember_false_of_pos nests i (hr h)
+    rw [cnlMuLogG_listed _ _ _ _ _ h hz, cnlMuLogG_listed _ _ _ _ _ h hz]
     have hs := sum_giTerms_scale (cnlMuTerm mu V av) (cnlMuTerm mu (fun j => V j + k) av)
       (Real.exp ((mu - 1) * k)) i nests (by
       intro m hm a
       exact cnlMuTerm_shift mu V av m i a k (ok.mu_ne m hm)
         (cnlBiosum_nonneg V av m _ (ok.alpha_nonneg m hm) ok.av_nonneg))
     have hpos := sum_cnlMuTerms_pos nests mu V av i ok (avail_pos av i ok.av_nonneg hav) (hr h)
-    simp only [emul_real, NumR.log_real]
     rw [hs, ← mul_assoc, mul_comm mu, mul_assoc,
       Real.log_mul (Real.exp_pos _).ne' (mul_ne_zero hmu hpos.ne'), Real.log_exp]
     ring
-  · rw [if_neg h, if_neg h]
-    simp only [emul_real, NumR.log_real, NumR.add_real, NumR.sub_real, NumR.ofNat_real_one]
+  · have h' : inSomeCNest nests i = false := by simpa using h
+    rw [cnlMuLogG_alone _ _ _ _ _ (Or.inl h'), cnlMuLogG_alone _ _ _ _ _ (Or.inl h')]
     ring
 
 theorem cnlP_eq_mevP (nests : List (CNest ℝ)) (alts : List Int) (V av : Int → ℝ) (c : Int) :
